@@ -553,3 +553,60 @@ def d6_8(ctx):
                 continue
             ctx.check(not bad, key, fn, f"{c.name}.{meth} passes the struct codec's value through unchanged on {len(ws)} witnesses",
                       f"{c.name}.{meth} alters the value around the struct codec: {bad[:3]} - decode(encode(v)) is no longer v to the type's precision", witnesses=len(ws))
+
+
+@rule(P, "D6.9", "T-WITNESS", floor=15)
+def d6_9(ctx):
+    """String, bit-string and PCCC string codecs folded on witness values (sa/miniinterp.py with a witness stream): encode
+    gives the bytes an independent reading of the wire format gives, decode of those bytes gives the value back, and a decode
+    from a longer stream consumes exactly the encoded bytes."""
+    import ast as _ast
+
+    from ..miniinterp import Interp, Stream, _Raise, _Unknown
+
+    dt = ctx.model.module(DT)
+    pc = ctx.model.module("pycomm3.cip.pccc")
+    bits = lambda n, on: [i in on for i in range(n)]  # noqa: E731
+    cases = [
+        (dt, "BYTE", "BYTE.encode(v)", bits(8, {0, 2}), b"\x05"), (dt, "BYTE", "BYTE.encode(v)", bits(8, {7}), b"\x80"), (dt, "WORD", "WORD.encode(v)", bits(16, {0, 15}), b"\x01\x80"),
+        (dt, "DWORD", "DWORD.encode(v)", bits(32, {1, 31}), b"\x02\x00\x00\x80"), (dt, "LWORD", "LWORD.encode(v)", bits(64, {0, 63}), b"\x01" + bytes(6) + b"\x80"),
+        (dt, "STRING", "STRING.encode(v)", "abc", b"\x03\x00abc"), (dt, "STRING", "STRING.encode(v)", "", b"\x00\x00"), (dt, "SHORT_STRING", "SHORT_STRING.encode(v)", "ab", b"\x02ab"),
+        (dt, "LOGIX_STRING", "LOGIX_STRING.encode(v)", "a", b"\x01\x00\x00\x00a"), (dt, "STRING2", "STRING2.encode(v)", "ab", b"\x02\x00a\x00b\x00"), (dt, "STRING2", "STRING2.encode(v)", "", b"\x00\x00"),
+        (dt, "STRINGN", "STRINGN.encode(v)", "abc", b"\x01\x00\x03\x00abc"), (dt, "STRINGN", "STRINGN.encode(v, 2)", "ab", b"\x02\x00\x02\x00a\x00b\x00"), (dt, "STRINGN", "STRINGN.encode(v)", "", b"\x01\x00\x00\x00"),
+        (dt, "STRINGI", "STRINGI.encode((v, STRING, 'eng', 4), ('x', SHORT_STRING, 'fra', 5))", "hello", b"\x02eng\xd0\x04\x00\x05\x00hellofra\xda\x05\x00\x01x"),
+        (pc, "PCCC_ASCII", "PCCC_ASCII.encode(v)", "ab", b"ba"), (pc, "PCCC_STRING", "PCCC_STRING.encode(v)", "abcd", b"\x04\x00badc"),
+    ]
+    for mod, cname, expr, value, wire in cases:
+        key = ckey(f"{mod.name}:{cname}", f"witness:{expr}:{value if not isinstance(value, list) else ''.join('1' if b else '0' for b in value)}")
+        it = Interp(ctx, mod)
+        try:
+            got = it.ev(_ast.parse(expr, mode="eval").body, {"v": value})
+            enc_ok, enc_note = (bytes(got) == wire if isinstance(got, (bytes, bytearray)) else False), (got.hex() if isinstance(got, (bytes, bytearray)) else repr(got))
+        except _Raise as r:
+            enc_ok, enc_note = False, f"raises {r.name}"
+        except _Unknown as u:
+            ctx.undecided(key, mod.tree, f"{expr} not foldable: {u.why}")
+            continue
+        except (ArithmeticError, TypeError, ValueError, KeyError, IndexError, AttributeError) as err:
+            enc_ok, enc_note = False, f"raises {type(err).__name__}"
+        # decode back (STRINGI returns three lists, STRINGN needs the stream form; both through T.decode)
+        it = Interp(ctx, mod)
+        stream = Stream(wire + (b"" if cname == "PCCC_STRING" else b"\xaa\xbb"))  # the PCCC string element is a fixed 84-byte field: decoded from the exact element
+        try:
+            back = it.ev(_ast.parse(f"{cname}.decode(s)", mode="eval").body, {"s": stream})
+            if cname == "STRINGI":
+                dec_ok = [list(x) for x in back] == [["hello", "x"], ["eng", "fra"], [4, 5]]
+            else:
+                dec_ok = back == value and type(back) is type(value)
+            dec_note = repr(back)[:80]
+            pos_ok = stream.pos == len(wire) or cname == "PCCC_STRING"  # the PCCC string element is a fixed 84-byte field
+        except _Raise as r:
+            dec_ok, dec_note, pos_ok = False, f"raises {r.name}", True
+        except _Unknown as u:
+            ctx.undecided(key, mod.tree, f"{cname}.decode not foldable: {u.why}")
+            continue
+        except (ArithmeticError, TypeError, ValueError, KeyError, IndexError, AttributeError) as err:
+            dec_ok, dec_note, pos_ok = False, f"raises {type(err).__name__}", True
+        ci = ctx.model.cls(f"{mod.name}:{cname}")
+        ctx.check(enc_ok and dec_ok and pos_ok, key, ci.node, f"{expr} <-> {wire.hex()}",
+                  f"{expr} with v={value!r}: encode -> {enc_note} (wire format {wire.hex()}); decode({wire.hex()}) -> {dec_note}" + ("" if pos_ok else f"; decode consumed {stream.pos} of {len(wire)} bytes"), witness=expr)
